@@ -139,11 +139,63 @@ type BuildCase struct {
 	DebCompression  string            `json:"deb_compression,omitempty"`
 	RPMCompression  string            `json:"rpm_compression,omitempty"`
 	RPMBuildHost    string            `json:"rpm_buildhost,omitempty"`
-	Scripts         map[string]string `json:"scripts,omitempty"`   // slot -> Rel of a tree node; slots: preinstall, ..., rpm.pretrans, deb.rules, apk.preupgrade, archlinux.postupgrade
-	Changelog       string            `json:"changelog,omitempty"` // Rel of tree node with chglog yaml
-	Extra           map[string]any    `json:"extra,omitempty"`     // extra top-level YAML (format blocks etc.), merged in
+	Scripts         map[string]string `json:"scripts,omitempty"`     // slot -> Rel of a tree node; slots: preinstall, ..., rpm.pretrans, deb.rules, apk.preupgrade, archlinux.postupgrade
+	Changelog       string            `json:"changelog,omitempty"`   // Rel of tree node with chglog yaml
+	Extra           map[string]any    `json:"extra,omitempty"`       // extra top-level YAML (format blocks etc.), merged in
+	X               *Extras           `json:"x,omitempty"`           // typed format-specific blocks
+	Constraints     bool              `json:"constraints,omitempty"` // decorate every second relation item with a version constraint in the target format's syntax
 	Formats         []string          `json:"formats,omitempty"`
 	RelSrc          bool              `json:"rel_src,omitempty"` // reference sources by relative path (needs cwd = root)
+}
+
+type IPKAlt struct {
+	Priority int    `json:"priority"`
+	Target   string `json:"target"`
+	LinkName string `json:"link_name"`
+}
+
+// Extras are the format-specific settings of a configuration.
+type Extras struct {
+	DebArch, RPMArch, APKArch, ArchArch, IPKArch string              `json:",omitempty"`
+	DebFields                                    map[string]string   `json:",omitempty"`
+	DebTriggers                                  map[string][]string `json:",omitempty"` // yaml key -> names
+	DebBreaks, DebPredepends                     []string            `json:",omitempty"`
+	RPMGroup, RPMSummary, RPMPackager            string              `json:",omitempty"`
+	RPMPrefixes                                  []string            `json:",omitempty"`
+	IPKABI                                       string              `json:",omitempty"`
+	IPKAlternatives                              []IPKAlt            `json:",omitempty"`
+	IPKTags, IPKPredepends                       []string            `json:",omitempty"`
+	IPKFields                                    map[string]string   `json:",omitempty"`
+	IPKEssential, IPKAutoInstalled               bool                `json:",omitempty"`
+	ArchPkgbase, ArchPackager                    string              `json:",omitempty"`
+}
+
+// Constrain returns relation item i of a list decorated for format f.
+func Constrain(item string, i int, f string) string {
+	if i%2 == 1 {
+		return item
+	}
+	ver := fmt.Sprintf("%d.%d", i+1, i)
+	switch f {
+	case "deb", "ipk":
+		return fmt.Sprintf("%s (>= %s)", item, ver)
+	case "rpm":
+		return fmt.Sprintf("%s >= %s", item, ver)
+	default:
+		return fmt.Sprintf("%s>=%s", item, ver)
+	}
+}
+
+// ForFormat returns the relation lists as configured when building format f.
+func (c *BuildCase) rel(list []string, f string) []string {
+	if !c.Constraints || f == "" {
+		return list
+	}
+	out := make([]string, len(list))
+	for i, it := range list {
+		out[i] = Constrain(it, i, f)
+	}
+	return out
 }
 
 func (c *BuildCase) formats() []string {
@@ -224,6 +276,12 @@ func ts(sec int64) string { return time.Unix(sec, 0).UTC().Format(time.RFC3339) 
 
 // ConfigMap renders the case as a generic map (ordered keys do not matter to the parser).
 func (c *BuildCase) ConfigMap(root string) map[string]any {
+	return c.ConfigMapFor(root, "")
+}
+
+// ConfigMapFor renders the configuration used to build format f (relation constraints
+// are written in f's syntax when the case asks for constraints).
+func (c *BuildCase) ConfigMapFor(root, f string) map[string]any {
 	m := map[string]any{}
 	put := func(k, v string) {
 		if v != "" {
@@ -248,7 +306,7 @@ func (c *BuildCase) ConfigMap(root string) map[string]any {
 	put("license", c.Meta.License)
 	lst := func(k string, v []string) {
 		if len(v) > 0 {
-			m[k] = v
+			m[k] = c.rel(v, f)
 		}
 	}
 	lst("replaces", c.Meta.Replaces)
@@ -317,6 +375,61 @@ func (c *BuildCase) ConfigMap(root string) map[string]any {
 	for k, v := range c.Extra {
 		m[k] = deepCopyAny(v)
 	}
+	if x := c.X; x != nil {
+		ps := func(blk, k, v string) {
+			if v != "" {
+				sub(m, blk)[k] = v
+			}
+		}
+		pl := func(blk, k string, v []string, constrain bool) {
+			if len(v) > 0 {
+				if constrain {
+					v = c.rel(v, f)
+				}
+				sub(m, blk)[k] = v
+			}
+		}
+		ps("deb", "arch", x.DebArch)
+		ps("rpm", "arch", x.RPMArch)
+		ps("apk", "arch", x.APKArch)
+		ps("archlinux", "arch", x.ArchArch)
+		ps("ipk", "arch", x.IPKArch)
+		if len(x.DebFields) > 0 {
+			sub(m, "deb")["fields"] = x.DebFields
+		}
+		for k, v := range x.DebTriggers {
+			if len(v) > 0 {
+				sub(sub(m, "deb"), "triggers")[k] = v
+			}
+		}
+		pl("deb", "breaks", x.DebBreaks, true)
+		pl("deb", "predepends", x.DebPredepends, true)
+		ps("rpm", "group", x.RPMGroup)
+		ps("rpm", "summary", x.RPMSummary)
+		ps("rpm", "packager", x.RPMPackager)
+		pl("rpm", "prefixes", x.RPMPrefixes, false)
+		ps("ipk", "abi_version", x.IPKABI)
+		if len(x.IPKAlternatives) > 0 {
+			var alts []any
+			for _, a := range x.IPKAlternatives {
+				alts = append(alts, map[string]any{"priority": a.Priority, "target": a.Target, "link_name": a.LinkName})
+			}
+			sub(m, "ipk")["alternatives"] = alts
+		}
+		pl("ipk", "tags", x.IPKTags, false)
+		pl("ipk", "predepends", x.IPKPredepends, true)
+		if len(x.IPKFields) > 0 {
+			sub(m, "ipk")["fields"] = x.IPKFields
+		}
+		if x.IPKEssential {
+			sub(m, "ipk")["essential"] = true
+		}
+		if x.IPKAutoInstalled {
+			sub(m, "ipk")["auto_installed"] = true
+		}
+		ps("archlinux", "pkgbase", x.ArchPkgbase)
+		ps("archlinux", "packager", x.ArchPackager)
+	}
 	if c.DebCompression != "" {
 		sub(m, "deb")["compression"] = c.DebCompression
 	}
@@ -358,8 +471,10 @@ func deepCopyAny(v any) any {
 	return v
 }
 
-func (c *BuildCase) YAML(root string) []byte {
-	b, err := yaml.Marshal(c.ConfigMap(root))
+func (c *BuildCase) YAML(root string) []byte { return c.YAMLFor(root, "") }
+
+func (c *BuildCase) YAMLFor(root, f string) []byte {
+	b, err := yaml.Marshal(c.ConfigMapFor(root, f))
 	if err != nil {
 		panic(err)
 	}
@@ -370,13 +485,17 @@ func noEnv(string) string { return "" }
 
 // ParseConfig parses the rendered YAML exactly as the CLI would (minus the process environment).
 func (c *BuildCase) ParseConfig(root string) (nfpm.Config, error) {
-	return nfpm.ParseWithEnvMapping(bytes.NewReader(c.YAML(root)), noEnv)
+	return c.ParseConfigFor(root, "")
+}
+
+func (c *BuildCase) ParseConfigFor(root, f string) (nfpm.Config, error) {
+	return nfpm.ParseWithEnvMapping(bytes.NewReader(c.YAMLFor(root, f)), noEnv)
 }
 
 // BuildOne packages one format from a freshly parsed configuration, following the
 // same steps as `nfpm package`.
 func (c *BuildCase) BuildOne(root, format string) ([]byte, error) {
-	cfg, err := c.ParseConfig(root)
+	cfg, err := c.ParseConfigFor(root, format)
 	if err != nil {
 		return nil, fmt.Errorf("parse: %w", err)
 	}
